@@ -321,6 +321,28 @@ def rule_g(model, rep):
     rep.check(bool(call) and (mapped or bounded), R, f"{D}:pbkdf2_hmac rounds", "hashlib.pbkdf2_hmac(..., rounds, ...)  # OverflowError for rounds >= 2**31 is not translated",
               "an iteration count the C library cannot take is reported as ValueError (the handlers declare max_rounds = 0xFFFFFFFF, so the parser lets it through)",
               witness="pbkdf2_sha256.verify(pw, '$pbkdf2-sha256$2147483648$<salt>$<chk>') raises OverflowError('iteration value is too great')")
+    # the same function re-raises OverflowError for a *key length* beyond a C int (the pinned suite requires that of pbkdf2_hmac itself); the
+    # builtin scrypt engine asks it for p * 128 * r bytes, r and p being read from the hash string, and validate() admits r * p up to 2**30 - 1
+    SC = "passlib.crypto.scrypt"
+    fsc = model.func(SC, "scrypt")
+    usc = model.unit(SC)
+    bcall = [c for c in walk_no_nested(fsc) if isinstance(c, ast.Call) and ast.unparse(c.func) == "_scrypt"]
+    mapped = False
+    for c in bcall:
+        t = usc.enclosing(c, ast.Try)
+        while t is not None:
+            if any(h.type is not None and "OverflowError" in ast.unparse(h.type) and any(isinstance(x, ast.Raise) and "ValueError" in ast.unparse(x) for x in h.body) for h in t.handlers):
+                mapped = True
+            t = usc.enclosing(t, ast.Try)
+    max_rp = model.fold(usc, ast.Name(id="MAX_RP", ctx=ast.Load()))
+    bounded = isinstance(max_rp, int) and (max_rp + 1) * 128 <= 2 ** 31
+    be = model.func(SC + "._builtin", "ScryptEngine.run")
+    asks = [ast.unparse(c) for c in walk_no_nested(be) if isinstance(c, ast.Call) and ast.unparse(c.func) == "pbkdf2_hmac" and any(k.arg == "keylen" and ast.unparse(k.value) == "iv_bytes" for k in c.keywords)]
+    if not asks and not bounded and not mapped:
+        rep.undecided(R, f"{SC}._builtin:ScryptEngine.run", "the pbkdf2_hmac(..., keylen=iv_bytes) request was not found")
+    rep.check(len(bcall) == 1 and (mapped or bounded), R, f"{SC}:scrypt backend call", f"return {ast.unparse(bcall[0])[:60]}  # MAX_RP={max_rp!r}; OverflowError of the backend not translated" if bcall else "<no backend call>",
+              "parameters the selected backend cannot take are reported as ValueError: either validate() keeps p * 128 * r within a C int, or the OverflowError of the backend is translated",
+              witness="scrypt.set_backend('builtin'); scrypt.verify(pw, '$scrypt$ln=4,r=33554432,p=1$<salt>$<chk>') raises OverflowError('key length is too great')")
     # scram: an empty algorithm name in the digest list
     S = "passlib.handlers.scram"
     fs = model.func(S, "scram.from_string")
